@@ -124,6 +124,7 @@ class Assembler:
         self.trees = {}
         self.origin = []  # (start offset, fn qname, rust line)
         self.unknown_conds = []
+        self.holes = {}  # hole token -> [(fn, expression node)] : every Rust expression printed under that token
 
     def tree(self, fn):
         if fn.qname not in self.trees:
@@ -164,7 +165,9 @@ class Assembler:
                         text += p[1]
                     else:
                         h = [x for x in s.holes if x[0] == idx][0]
-                        text += holetok(self.repo, fn, h[2], h[1])
+                        tok = holetok(self.repo, fn, h[2], h[1])
+                        self.holes.setdefault(tok, []).append((fn, h[2], s.env))
+                        text += tok
                 if s.newline:
                     text += "\n"
                 out.append((text, fn.qname, s.node["l"]))
